@@ -28,6 +28,7 @@ EXPLANATION = (
     "predicate and tier 1 (T12), arm table of validate_jsr_specifier (T8)."
 )
 NOT_DECIDED = "that the highest satisfying version is selected (arithmetic), yanked/date filtering semantics as data, cached-manifest preference outcomes"
+CONFIGS = ["default", "nofastcheck"]  # thorough tier also analyses the build without fast_check / symbols
 ASSUMPTIONS = ["VersionReq::matches and Version ordering (deno_semver) are correct"]
 
 
